@@ -119,6 +119,7 @@ struct template_t : public instance_t
     std::deque<branchpoint_t> branchpoints;
     std::deque<edge_t> edges;
     bool is_TA, dynamic, is_defined;
+    bool is_instantiated; /* the template is used in the system */
 #ifdef C04_BUILDER
     symbol_t init;
 #endif
@@ -162,6 +163,18 @@ inline type_t verif_create_process_set(type_t t) { return type_t(20000 + t.id); 
 inline type_t verif_create_primitive(kind_t k) { return type_t::create_primitive(k); }
 }
 #include "document_ctors.inc" /* REAL functions, lowered */
+namespace UTAP {
+/* the part of the builder DocumentBuilder::process touches after it resolved the name */
+class DocumentBuilder
+{
+public:
+    Document& document;
+    position_t position;
+    DocumentBuilder(Document& d): document(d) {}
+    void process_tail(symbol_t symbol);
+};
+}
+#include "builder_process.inc" /* REAL: DocumentBuilder::process from the resolved instance on */
 
 static Document doc;
 static template_t* T;
@@ -373,6 +386,20 @@ int w08_mapped_count(int i) { std::list<instance_t>* lp; if (g_lsc) lp = &doc.ls
    process object, 3 name is the instance's name, 4 type code, 5 type arity/frame ok, 6 copies unbound/arguments/templ/parameters,
    7 copies the mapping, 8 the instance still owns its own symbol */
 int w08_add_process(void) { instance_t& in = doc.instances.at(0); doc.add_process(in, position_t()); return (int)doc.processes.size(); }
+/* DocumentBuilder::process on the symbol of instance 0; before it no template is marked as used.  what: 0 run, 1 template 0 is
+   marked, 2 number of processes */
+int w08_builder_process(int what)
+{
+    template_t& t0 = doc.templates.at(0);
+    if (what == 0) {
+        t0.is_instantiated = false;
+        DocumentBuilder b(doc);
+        b.process_tail(doc.instances.at(0).uid);
+        return 0;
+    }
+    if (what == 1) return t0.is_instantiated ? 1 : 0;
+    return (int)doc.processes.size();
+}
 int w08_proc(int what)
 {
     instance_t& in = doc.instances.at(0);
